@@ -945,8 +945,9 @@ def _pot_inner(case):
         viol.append({"mech": mech, "msg": f"[{scn} src={src} opt={opt}] " + msg,
                      "data": {"nB": NB.tolist(), "nF": NF.tolist(), **d}})
 
-    def thermal(pot, rec, m2b, m2f, T):
-        """Call the real potentialOneLoopThermal; judge arguments + assembly."""
+    def thermal(pot, rec, m2b, m2f, T, opt=opt):
+        """Call the real potentialOneLoopThermal; judge arguments + assembly (opt = the
+        imaginary option the potential was built with)."""
         del rec.logb[:], rec.logf[:]
         bos = (np.asarray(m2b, dtype=float), NB, np.asarray(spec["b"]["c"]), np.asarray(spec["b"]["mu"]))
         fer = (np.asarray(m2f, dtype=float), NF, np.asarray(spec["f"]["c"]), np.asarray(spec["f"]["mu"]))
@@ -1298,9 +1299,9 @@ def _pot_inner(case):
         t2 = (Ta ** 2)[..., None] if shape else Ta ** 2
         o2 = "PRINCIPAL_PART" if opt == "ERROR" else opt
         potA, recA = _make_pot(spec, "default", o2)
-        a = thermal(potA, recA, xb * t2, xf * t2, T)
+        a = thermal(potA, recA, xb * t2, xf * t2, T, opt=o2)
         potB, recB = _make_pot(spec, "table:CONSTANT:CONSTANT", o2)
-        b = thermal(potB, recB, xb * t2, xf * t2, T)
+        b = thermal(potB, recB, xb * t2, xf * t2, T, opt=o2)
         mon["pot_global_state"] += 1
         if a is None or b is None or not np.array_equal(a, b):
             V(f"potential on the module default integrals gives {None if a is None else a.tolist()}"
@@ -1330,7 +1331,10 @@ def summarize(results, tier):
         if r.get("inconclusive"):
             continue
         o = r.get("obs", {})
-        for name, w in (o.get("worst") or {}).items():
+        wd = o.get("worst")
+        for name, w in (wd.items() if isinstance(wd, dict) else ()):
+            if not isinstance(w, dict) or "ratio" not in w:
+                continue
             cur = worst.setdefault(name, {"max_ratio": 0.0, "case_maxima": [], "where": None})
             cur["case_maxima"].append(w["ratio"])
             if w["ratio"] >= cur["max_ratio"]:
